@@ -33,8 +33,13 @@ Vecs ==
                       \cup { [shape |-> t[1], n |-> t[2], f |-> f, kind |-> k] : f \in 0..(t[3] - 1), k \in FaultKinds }
                       : t \in FixedShapes }
       hookv == { [shape |-> t[1], n |-> t[2], f |-> 0, kind |-> "hooklimit"] : t \in HookShapes }
+      \* a transparent struct whose zero-sized companion field fails after the data field was constructed in place
+      \* (f = 1 = total: the instrumented element exists, then the decode fails)
+      tagv == { [shape |-> sh, n |-> 1, f |-> ff, kind |-> k] : sh \in {"boxtransptag", "rctransptag", "arraytransptag"},
+                  ff \in {1}, k \in {"malformed", "exhausted"} }
+              \cup { [shape |-> sh, n |-> 1, f |-> -1, kind |-> "none"] : sh \in {"boxtransptag", "rctransptag", "arraytransptag"} }
       skipv == { [shape |-> sh, n |-> 1, f |-> -1, kind |-> "none"] : sh \in {"boxtranspskip", "arraytranspskip", "rctranspskip"} }
-  IN SetToSeq(seqok \cup fixv \cup hookv \cup skipv)
+  IN SetToSeq(seqok \cup fixv \cup hookv \cup skipv \cup tagv)
 
 ASSUME ndJsonSerialize(IOEnv.OUT, Vecs)
 ASSUME PrintT(<<"VECTORS", Len(Vecs)>>)
